@@ -342,6 +342,8 @@ func victimMain(mode string) {
 		// live until the parent closes stdin
 		bufio.NewReader(os.Stdin).ReadString(0)
 		os.Exit(0)
+	case "server":
+		serverVictimMain()
 	}
 	os.Exit(4)
 }
